@@ -14,7 +14,7 @@ pub fn property_of(c: Clause, scn: &Scenario) -> &'static str {
                 "C01"
             }
         }
-        Clause::AccessWithoutHold | Clause::WriteUnderShared | Clause::Torn | Clause::StaleValue | Clause::Misrouted | Clause::ClosureOutsideHold => "C02",
+        Clause::AccessWithoutHold | Clause::WriteUnderShared | Clause::Torn | Clause::StaleValue | Clause::Misrouted | Clause::ClosureOutsideHold | Clause::EscapedAccess => "C02",
         Clause::AcquireWhileHolding | Clause::KeyBackWhileHolding => {
             if raw {
                 "C12"
